@@ -51,6 +51,37 @@ type Solver struct {
 	stats     *SolverStats
 	log       io.Writer
 	lastErr   string
+	// oneShot: a process used for a single check without push/pop, so that the solver applies its
+	// non-incremental preprocessing (bit-blasting tactics); decides hash-like arithmetic that the
+	// incremental core does not.
+	oneShot bool
+}
+
+// hasMulXor: the formula contains a multiplication (hash-like arithmetic).
+func hasMul(ts []*Term) bool {
+	seen := map[int]bool{}
+	var rec func(t *Term) bool
+	rec = func(t *Term) bool {
+		if seen[t.id] {
+			return false
+		}
+		seen[t.id] = true
+		if t.Op == "bvmul" {
+			return true
+		}
+		for _, a := range t.Args {
+			if rec(a) {
+				return true
+			}
+		}
+		return false
+	}
+	for _, t := range ts {
+		if rec(t) {
+			return true
+		}
+	}
+	return false
 }
 
 func NewSolver(kind string, timeoutMs, seed int, stats *SolverStats) *Solver {
@@ -222,6 +253,16 @@ func (s *Solver) readSexp(deadline time.Duration) (string, error) {
 func (s *Solver) Check(asserts []*Term, want []*Term) (string, []*big.Int) {
 	t0 := time.Now()
 	res, vals := s.check1(asserts, want)
+	if res == "unknown" && !s.oneShot && s.kind.Name != "cvc5" && strings.Contains(s.lastErr, "unknown (timeout)") && hasMul(asserts) {
+		// second attempt in a fresh non-incremental process
+		o := &Solver{kind: s.kind, timeoutMs: s.timeoutMs, seed: s.seed, stats: s.stats, oneShot: true}
+		o.start()
+		res, vals = o.check1(asserts, want)
+		o.Close()
+		if res != "unknown" {
+			s.lastErr = ""
+		}
+	}
 	d := time.Since(t0).Nanoseconds()
 	if slow := os.Getenv("VERIF_SLOWLOG"); slow != "" && d > 500e6 {
 		f, _ := os.OpenFile(slow, os.O_APPEND|os.O_CREATE|os.O_WRONLY, 0644)
@@ -267,7 +308,9 @@ func (s *Solver) check1(asserts []*Term, want []*Term) (string, []*big.Int) {
 	for _, w := range want {
 		s.define(w, &sb)
 	}
-	sb.WriteString("(push 1)\n")
+	if !s.oneShot {
+		sb.WriteString("(push 1)\n")
+	}
 	for _, a := range asserts {
 		if a.IsTrue() {
 			continue
@@ -348,7 +391,9 @@ func (s *Solver) check1(asserts []*Term, want []*Term) (string, []*big.Int) {
 			vals = append(vals, vs...)
 		}
 	}
-	s.send("(pop 1)")
+	if !s.oneShot {
+		s.send("(pop 1)")
+	}
 	return res, vals
 }
 
